@@ -64,6 +64,149 @@ theorem be_reads_wellformed (cap : Nat) (p : PhysTM) (cols : List Md) (slices : 
        some (.tableEnd (C04.file { swap := true, cap := cap } p slices).length)⟩ :=
   C04.reads_wellformed _ p cols slices hp hn hf sub rest fuel hfuel
 
+
+/-! ### the whole file as a list of fields, independent of the byte order -/
+
+/-- a field of the format: `num` = a multi-byte numeric field (given by its little-endian image),
+    `raw` = byte-oriented data -/
+inductive Field where
+  | num (b : Bytes)
+  | raw (b : Bytes)
+
+/-- the bytes of a list of fields in configuration `c`: numeric fields pass through the
+    conversion routine once, byte-oriented ones are copied -/
+def render (c : Cfg) : List Field → Bytes
+  | [] => []
+  | .num b :: fs => swapElem c b ++ render c fs
+  | .raw b :: fs => b ++ render c fs
+
+theorem render_append (c : Cfg) (a b : List Field) : render c (a ++ b) = render c a ++ render c b := by
+  induction a with
+  | nil => rfl
+  | cons f fs ih => cases f <;> simp [render, ih]
+
+theorem render_flatMap {α : Type} (c : Cfg) (l : List α) (f : α → List Field) :
+    render c (l.flatMap f) = l.flatMap (fun x => render c (f x)) := by
+  induction l with
+  | nil => rfl
+  | cons x xs ih => simp [List.flatMap_cons, render_append, ih]
+
+namespace F
+def le (v : Int) : List Field := [.num (natLE 4 (ofInt32 v))]
+def str (s : Bytes) : List Field := le s.length ++ [.raw s]
+def elem (packed : Bool) (e : Bytes) : List Field :=
+  (if packed then [.raw (bytes7 e.length)] else le e.length) ++ [.raw e]
+def objBody (o : Obj) (packed : Bool) : List Field :=
+  if isArr o.tid then (if packed then le (byteSize o.elems) else []) ++ o.elems.flatMap (elem packed)
+  else o.elems.map .num
+def objArr (o : Obj) : List Field := le o.count ++ objBody o true
+def va : VA → List Field
+  | .plain o => [.raw [1, UInt8.ofNat o.tid]] ++ objArr o
+  | .rle rows runs vals => [.raw [2, UInt8.ofNat vals.tid]] ++ le rows ++ objArr (runsObj runs) ++ objArr vals
+  | .bit vt rows bits => [.raw [3, UInt8.ofNat vt]] ++ le rows ++ [.raw bits]
+def cs (x : CS) : List Field :=
+  [.raw (sec 4)] ++ va x.values ++ le x.propCnt ++ x.props.flatMap (fun p => str p.1 ++ va p.2)
+def ts (cols : List CS) : List Field := [.raw (sec 3)] ++ le cols.length ++ cols.flatMap cs
+def optObj : Option Obj → List Field
+  | some o => [.raw [1]] ++ objBody o false
+  | none => [.raw [0]]
+def tableEntry (name : Bytes) (v : Obj) (d : Option Obj) : List Field :=
+  str name ++ [.raw [UInt8.ofNat v.tid]] ++ [.raw [1]] ++ objBody v false ++ optObj d
+def nameRow (r : NameRow) : List Field := str r.name ++ [.raw [UInt8.ofNat r.vt]] ++ optObj r.dflt
+def tm (p : PhysTM) : List Field :=
+  [.raw (sec 2)] ++ le p.table.length ++ p.table.flatMap (fun e => tableEntry e.1 e.2.1 e.2.2) ++
+  le p.cols.length ++ le p.names.length ++ p.names.flatMap nameRow ++
+  p.cols.flatMap (fun col => col.flatMap optObj)
+def file (p : PhysTM) (slices : List (List CS)) : List Field :=
+  [.raw header] ++ tm p ++ (slices.flatMap ts ++ [.raw tsEnd])
+end F
+
+theorem r_le (c : Cfg) (v : Int) : render c (F.le v) = Spec.le c v := by
+  simp [F.le, render, Spec.le, int32Bytes]
+
+theorem r_str (c : Cfg) (s : Bytes) : render c (F.str s) = Spec.str c s := by
+  simp [F.str, render_append, r_le, render, Spec.str]
+
+theorem r_elem (c : Cfg) (packed : Bool) (e : Bytes) : render c (F.elem packed e) = Spec.elem c packed e := by
+  cases packed <;> simp [F.elem, render_append, r_le, render, Spec.elem]
+
+theorem r_nums (c : Cfg) (es : List Bytes) : render c (es.map .num) = es.flatMap (swapElem c) := by
+  induction es with
+  | nil => rfl
+  | cons x xs ih => simp [render, ih]
+
+theorem r_objBody (c : Cfg) (o : Obj) (packed : Bool) : render c (F.objBody o packed) = Spec.objBody c o packed := by
+  unfold F.objBody Spec.objBody
+  split
+  · rw [render_append, render_flatMap]
+    simp only [r_elem]
+    cases packed <;> simp [r_le, render]
+  · exact r_nums c o.elems
+
+theorem r_objArr (c : Cfg) (o : Obj) : render c (F.objArr o) = Spec.objArr c o := by
+  simp [F.objArr, render_append, r_le, r_objBody, Spec.objArr]
+
+theorem r_va (c : Cfg) (v : VA) : render c (F.va v) = Spec.va c v := by
+  cases v <;> simp [F.va, render_append, render, r_le, r_objArr, Spec.va]
+
+theorem r_cs (c : Cfg) (x : CS) : render c (F.cs x) = Spec.cs c x := by
+  simp only [F.cs, render_append, render_flatMap, render, r_va, r_le, r_str, Spec.cs, List.append_nil]
+
+theorem r_ts (c : Cfg) (cols : List CS) : render c (F.ts cols) = Spec.ts c cols := by
+  simp only [F.ts, render_append, render_flatMap, render, r_cs, r_le, Spec.ts, List.append_nil]
+
+theorem r_optObj (c : Cfg) (o : Option Obj) : render c (F.optObj o) = Spec.optObj c o := by
+  cases o <;> simp [F.optObj, render_append, render, r_objBody, Spec.optObj, Spec.obj]
+
+theorem r_tableEntry (c : Cfg) (e : Bytes × Obj × Option Obj) :
+    render c (F.tableEntry e.1 e.2.1 e.2.2) = Spec.tableEntry c e.1 e.2.1 e.2.2 := by
+  simp [F.tableEntry, render_append, render, r_str, r_objBody, r_optObj, Spec.tableEntry, Spec.obj]
+
+theorem r_nameRow (c : Cfg) (r : NameRow) : render c (F.nameRow r) = Spec.nameRow c r := by
+  simp [F.nameRow, render_append, render, r_str, r_optObj, Spec.nameRow]
+
+theorem r_tm (c : Cfg) (p : PhysTM) : render c (F.tm p) = Spec.tm c p := by
+  simp only [F.tm, render_append, render_flatMap, render, r_le, r_tableEntry, r_nameRow, r_optObj,
+    Spec.tm, List.append_nil, List.append_assoc]
+
+/-- C17, the mirror statement for whole files: there is ONE list of fields, not depending on the
+    configuration, of which the file of either configuration is the rendering — so the
+    big-endian file is the little-endian file with exactly the numeric fields (counts, lengths,
+    row counts, byte sizes, fixed-size values) reversed element-wise, each once, and every
+    byte-oriented field (markers, ids, flags, packed lengths, payloads, run bytes, bit arrays)
+    identical. -/
+theorem file_fields (c : Cfg) (p : PhysTM) (slices : List (List CS)) :
+    C04.file c p slices = render c (F.file p slices) := by
+  simp only [F.file, render_append, render_flatMap, render, r_tm, r_ts, C04.file, List.append_nil]
+
+/-- without the conversion (little-endian host) every field is copied ... -/
+theorem render_noswap (c : Cfg) (h : c.swap = false) (fs : List Field) :
+    render c fs = fs.flatMap (fun f => match f with | .num b => b | .raw b => b) := by
+  induction fs with
+  | nil => rfl
+  | cons f fs ih => cases f <;> simp [render, ih, swapElem, h]
+
+/-- ... with it (big-endian host) exactly the numeric fields are reversed, each once -/
+theorem render_swap (c : Cfg) (h : c.swap = true) (fs : List Field) :
+    render c fs = fs.flatMap (fun f => match f with | .num b => b.reverse | .raw b => b) := by
+  induction fs with
+  | nil => rfl
+  | cons f fs ih => cases f <;> simp [render, ih, swapElem, h]
+
+/-- what the writers of the two configurations emit for the same table are the two renderings of
+    the same field list (C03.file_bytes holds for every configuration) -/
+theorem writers_mirror (cap : Nat) (tm : TM) (slices : List (List CS)) (kept : List MdEntry)
+    (hfold : foldCols (tm.cols.flatMap (·.entries)) = .ok kept)
+    (htab : C03.MdWritable tm.table) (hcols : ∀ col ∈ tm.cols, C03.MdWritable col)
+    (hkept : ∀ k ∈ kept, ∀ d, k.dflt = some d → Writable d)
+    (hsl : ∀ s ∈ slices, ∀ x ∈ s, x.Writable) :
+    ∃ fs : List Field, ∀ sw : Bool,
+      Emits (writeFile { swap := sw, cap := cap } ⟨tm, slices.map (fun s => ⟨s.map some⟩)⟩)
+        (render { swap := sw, cap := cap } fs) := by
+  refine ⟨F.file (C03.canonPhys tm kept) slices, fun sw => ?_⟩
+  rw [← file_fields]
+  exact C03.file_bytes _ tm slices kept hfold htab hcols hkept hsl
+
 /-- a missing conversion is visible: the little-endian reader does not read big-endian numbers -/
 example : readInt32 LE (le BE 1).toArray 0 = .ok (16777216, 4) ∧ readInt32 BE (le BE 1).toArray 0 = .ok (1, 4) :=
   ⟨rfl, rfl⟩
